@@ -45,7 +45,7 @@ RULE = (
     "both sessions: output dtype and all floating array leaves carry the session precision, outputs finite, "
     "float32 result vs float64 result of the same case within K*eps32*sqrt(N^D)*(1+max|Im lambda dt|)*scale, "
     "float64 result vs the independent reference model. Non-trivial: stiffest |lambda dt| >= 1e3, < 1e-3 or "
-    "exactly 0, and state amplitude in [0.1, 2]."
+    "exactly 0, and state amplitude in [0.1, 2]. extreme_domain_precision: the stepper strata at L in [3e3,1e7] or [1e-3,0.3]. Integrators: per-mode float32 vs float64 on non-amplifying modes. float32 input in an x64 session keeps float64. late_x64: fresh interpreter, import exponax, then enable x64, C02 integrator comparison (batches of 3 cases)."
 )
 ASSUMPTIONS = [
     "both sessions run in one process through jax.enable_x64(False/True)",
